@@ -125,6 +125,13 @@ PREDS = {
     "lt": lambda params: (lambda v: v < params[0]),
     "maskeq": lambda params: (lambda v: v & params[0] == params[1]),
     "neq": lambda params: (lambda v: v != params[0]),
+    # predicates spelled with the constant on the left (reflected operators) and with nested arithmetic
+    "bitset": lambda params: (lambda v: ((1 << (v & 7)) & params[0]) != 0),
+    "rsub": lambda params: (lambda v: (params[0] - v) > params[1]),
+    "rdiv": lambda params: (lambda v: v != 0 and (params[0] // v) == params[1]),
+    "rmod": lambda params: (lambda v: v != 0 and (params[0] % v) == params[1]),
+    "rpow": lambda params: (lambda v: (2 ** (v & 3)) == params[0]),
+    "rshift": lambda params: (lambda v: (params[0] >> (v & 7)) & 1 == 1),
 }
 
 
@@ -159,6 +166,20 @@ def mk_validator(case):
         return C.ExprValidator(sub, C.obj_ < params[0]), "obj"
     if p == "maskeq":
         return C.ExprValidator(sub, C.obj_ & params[0] == params[1]), "obj"
+    if p == "bitset":
+        return C.ExprValidator(sub, ((1 << (C.obj_ & 7)) & params[0]) != 0), "obj"
+    if p == "rsub":
+        return C.ExprValidator(sub, (params[0] - C.obj_) > params[1]), "obj"
+    if p == "rdiv":
+        return C.ExprValidator(sub, (C.obj_ != 0) & ((params[0] // (C.obj_ + (C.obj_ == 0))) == params[1])), "obj"
+    if p == "rmod":
+        return C.ExprValidator(sub, (C.obj_ != 0) & ((params[0] % (C.obj_ + (C.obj_ == 0))) == params[1])), "obj"
+    if p == "rpow":
+        return C.ExprValidator(sub, (2 ** (C.obj_ & 3)) == params[0]), "obj"
+    if p == "rshift":
+        if case.get("form") == "check":
+            return C.Struct("x" / sub, C.Check((params[0] >> (C.this.x & 7)) & 1 == 1)), "check"
+        return C.ExprValidator(sub, (params[0] >> (C.obj_ & 7)) & 1 == 1), "obj"
     if p == "neq":
         if case.get("form") == "check":
             return C.Struct("x" / sub, C.Check(C.this.x != params[0])), "check"
@@ -571,8 +592,65 @@ def force_all(v, depth=0):
     return v
 
 
+def case_index(ctx, case):
+    """validators that read the running index of a repeater: every list over {0..3} of length 0..3 is admitted on parse exactly
+    when it is admitted on build, namely when the predicate (v[i] >= i / v[i] != i) holds for every element"""
+    import construct as C
+    form, rep, pr = case["form"], case["rep"], case["pred"]
+    pyp = {"ge": (lambda v, i: v >= i), "ne": (lambda v, i: v != i)}[pr]
+    if form == "check":
+        elem = C.Struct("v" / C.Byte, C.Check((C.this.v >= C.this._index) if pr == "ge" else (C.this.v != C.this._index)))
+        lift, unlift = (lambda v: {"v": v}), (lambda e: e["v"])
+    elif form == "exprvalidator":
+        elem = C.ExprValidator(C.Byte, (lambda obj, ctx: obj >= ctx._index) if pr == "ge" else (lambda obj, ctx: obj != ctx._index))
+        lift, unlift = (lambda v: v), (lambda e: e)
+    else:
+        elem = C.Struct("v" / C.Byte, "g" / C.IfThenElse((C.this.v >= C.this._index) if pr == "ge" else (C.this.v != C.this._index), C.Pass, C.Error))
+        lift, unlift = (lambda v: {"v": v, "g": None}), (lambda e: e["v"])
+    for n in range(0, 4):
+        if rep == "array":
+            d = C.Array(n, elem)
+        elif rep == "greedy":
+            d = C.Struct("xs" / C.GreedyRange(elem), C.Terminated)
+        elif rep == "nested":
+            d = C.Array(2, C.Struct("p" / C.Prefixed(C.Byte, C.Struct("xs" / C.GreedyRange(elem), C.Terminated))))
+        else:
+            d = C.Struct("h" / C.Byte, "xs" / C.Array(n, elem))
+        for tup in itertools.product(range(4), repeat=n):
+            vals = list(tup)
+            ok = all(pyp(v, i) for i, v in enumerate(vals))
+            if rep == "array":
+                data, value, back = bytes(vals), [lift(v) for v in vals], (lambda r: [unlift(e) for e in r])
+            elif rep == "greedy":
+                data, value, back = bytes(vals), {"xs": [lift(v) for v in vals]}, (lambda r: [unlift(e) for e in r["xs"]])
+            elif rep == "nested":
+                data, value, back = bytes([n]) + bytes(vals) + bytes([n]) + bytes(vals), [{"p": {"xs": [lift(v) for v in vals]}}] * 2, (lambda r: [unlift(e) for e in r[1]["p"]["xs"]])
+            else:
+                data, value, back = b"\x07" + bytes(vals), {"h": 7, "xs": [lift(v) for v in vals]}, (lambda r: [unlift(e) for e in r["xs"]])
+            ctx.ev(2)
+            p = outcome(lambda: back(d.parse(data)))
+            b = outcome(lambda: d.build(value))
+            cc = dict(case, values=vals)
+            if ok:
+                if p != ("ok", vals):
+                    ctx.violation("index-validator-parse-rejects-valid:" + rep, "parse(%s) -> %r, predicate holds for every element" % (data.hex(), p), cc)
+                    return
+                if b != ("ok", data):
+                    ctx.violation("index-validator-build-rejects-valid:" + rep, "build(%r) -> %r, predicate holds for every element (parse admits %s)" % (vals, b, data.hex()), cc)
+                    return
+            else:
+                if p[0] == "ok":
+                    ctx.violation("index-validator-parse-admits-invalid:" + rep, "parse(%s) -> %r, predicate fails for some element" % (data.hex(), p), cc)
+                    return
+                if b[0] == "ok" or not is_construct_error(b[1]):
+                    ctx.violation("index-validator-build-admits-invalid:" + rep, "build(%r) -> %r, predicate fails for some element" % (vals, b if b[0] == "exc" else b[1].hex()), cc)
+                    return
+    ctx.count("index_validator_instances")
+    ctx.nontrivial("index", case)
+
+
 KINDS = {"const": case_const, "validator": case_validator, "enum": case_enum, "enumbig": case_enum_big, "flags": case_flags,
-         "mapping": case_mapping, "error": case_error}
+         "mapping": case_mapping, "error": case_error, "index": case_index}
 
 
 def run_case(ctx, case):
@@ -602,13 +680,14 @@ def gen_cases(ctx):
         for v in vals:
             cases.append({"kind": "const", "sub": sub, "value": v})
         for pred, params in (("oneof", [1, 2, 3]), ("oneof", [0]), ("oneof", []), ("noneof", [0, 255 if not signed else -1]), ("noneof", []), ("even", []),
-                             ("lt", [5]), ("maskeq", [0x0f, 0x03]), ("neq", [0]), ("neq", [7])):
+                             ("lt", [5]), ("maskeq", [0x0f, 0x03]), ("neq", [0]), ("neq", [7]), ("bitset", [0x15]), ("rsub", [100, 40]), ("rdiv", [100, 7]), ("rmod", [100, 2]),
+                             ("rpow", [4]), ("rshift", [0xa5])):
             for coll in ("list", "set"):
                 if coll == "set" and pred not in ("oneof", "noneof"):
                     continue
                 c = {"kind": "validator", "sub": sub, "pred": pred, "params": params, "coll": coll}
                 cases.append(c)
-            if pred == "neq":
+            if pred in ("neq", "rshift"):
                 cases.append({"kind": "validator", "sub": sub, "pred": pred, "params": params, "form": "check"})
         if not signed:
             for labels in ([["one", 1], ["two", 2], ["four", 4], ["eight", 8]], [["zero", 0]], [["a", 1], ["b", 255]], [["x", 3], ["y", 3]], [["lo", 0], ["hi", 255], ["mid", 128]]):
@@ -642,6 +721,10 @@ def gen_cases(ctx):
     for v in (b"\x00", b"Z", b"\xff"):
         cases.append({"kind": "const", "sub": None, "value": tag(v)})
     big = [0, 1, 2, 127, 128, 255, 256, 2 ** 32, 2 ** 64 - 1, 2 ** 64, 2 ** 100, 2 ** 127, 2 ** 128 - 1, -1, -2 ** 70]
+    for form in ("check", "exprvalidator", "error-guard"):
+        for rep_ in ("array", "greedy", "struct-array", "nested"):
+            for pr in ("ge", "ne"):
+                cases.append({"kind": "index", "form": form, "rep": rep_, "pred": pr})
     cases.append({"kind": "enumbig", "labels": [["one", 1], ["big", 2 ** 64]], "values": [tag(x) for x in big], "form": "Enum"})
     cases.append({"kind": "enumbig", "labels": [["one", 1]], "values": [tag(x) for x in big], "form": "FlagsEnum"})
     # Error placements: singles, all ordered pairs, sampled triples
